@@ -485,7 +485,12 @@ pub fn level_fields(level: &J) -> Vec<P> {
 pub fn build_options(level: &J) -> OptionParser<Val> {
     let mut op = con(level_fields(level), false).to_options();
     if b(level, "version") {
-        op = op.version(leak(&format!("VER-{}", s(level, "vtag"))));
+        let vt = s(level, "version_text");
+        op = if vt.is_empty() {
+            op.version(leak(&format!("VER-{}", s(level, "vtag"))))
+        } else {
+            op.version(leak(vt))
+        };
     }
     for (k, f) in [("descr", 0), ("header", 1), ("footer", 2), ("usage", 3)] {
         let v = s(level, k);
